@@ -17,6 +17,12 @@ class C11Monitor(Monitor):
 
     def on_build(self, w):
         self.paths = {id(m): p for p, m in w.label_moves()}
+        self.user_frozen = {}  # entry name -> rows the user labelled negative when he last configured the entry
+
+    def on_user_edit(self, w, ed):
+        rl = ed.get("relabel")
+        if rl:
+            self.user_frozen[rl["entry"]] = {i for i, x in enumerate(rl["labels"]) if x < 0}
 
     def _ctx(self, w, name, extra=""):
         cons = "+".join(sorted({c["type"] for c in w.sc["atoms"].get("constraints", [])})) or "none"
@@ -29,6 +35,17 @@ class C11Monitor(Monitor):
         leaves = World.leaves_of(mv)
         if not leaves or any(type(lf) is not DisplacementMove for lf in leaves):
             return
+        for lf in leaves:
+            if id(lf) not in self.paths:  # an elementary move the package created itself
+                self.paths = {id(m): p for p, m in w.label_moves()}
+                break
+        frozen = self.user_frozen.get(name)
+        if frozen and w.crit_events and w.crit_events[0]["positions"].shape == pre["positions"].shape:
+            moved_rows = set(np.nonzero(np.any(w.crit_events[0]["positions"] != pre["positions"], axis=1))[0].tolist())
+            if moved_rows & frozen:
+                self.violate(w, "negative_label_atom_moved", self._ctx(w, name, "labels=as_last_configured_by_user"),
+                             f"rows {sorted(moved_rows & frozen)} carry a negative label in the array the user last set on the "
+                             f"move(s) of this entry, and were displaced by {w.move_kind(name)}")
         if any(c["type"] != "FixAtoms" for c in w.sc["atoms"].get("constraints", [])):
             return
         composite = isinstance(mv, CompositeDisplacementMove)
@@ -97,7 +114,9 @@ class C11Monitor(Monitor):
                 r = sink[-1]
                 g = sorted(group)
                 exp = np.broadcast_to(r, (len(g), 3)) if r.shape[0] in (1, len(g)) else None
-                if exp is None or not np.allclose(delta[g], exp, rtol=0, atol=1e-9):
+                # (the displacement is read off as a difference of positions: rounding scales with their magnitude)
+                tol = 1e-9 * max(1.0, float(np.max(np.abs(moved_pos), initial=0.0)))
+                if exp is None or not np.allclose(delta[g], exp, rtol=0, atol=tol):
                     self.violate(w, "group_not_moved_by_common_result", self._ctx(w, name),
                                  f"{kind}: displacement of rows {g} is {delta[g].tolist()} but the operation returned {r.tolist()}")
                 w.result.count("probe.common_result_checked")
@@ -149,6 +168,34 @@ class C11(HistoryCampaign):
             "one trial executed")
     assumptions = ["the recording operation is a user-side Operation delegating to the shipped one",
                    "the common-result clause is judged only without constraints (as the statement says)"]
+
+    def generate(self, rnd, tier, index):
+        sc = super().generate(rnd, tier, index)
+        total = sum(s["n"] for s in sc["steps"])
+        if sc["driver"] != "GrandCanonical" and total >= 2 and rnd.random() < 0.25:
+            # between two runs the user freezes one particle by re-labelling the displacement move(s) he built
+            cands = [e for e in sc["moves"] if self._disp_labels(e["move"]) is not None]
+            if cands:
+                e = rnd.choice(cands)
+                lab = list(self._disp_labels(e["move"]))
+                live = sorted({x for x in lab if x >= 0})
+                if len(live) >= 2:
+                    victim = rnd.choice(live)
+                    sc["steps"] = [{"n": total // 2}, {"n": total - total // 2}]
+                    sc["edits"] = [{"before_segment": 1, "relabel": {"entry": e["name"], "labels": [-1 if x == victim else x for x in lab]}}]
+        return sc
+
+    @staticmethod
+    def _disp_labels(m):
+        """The common label array of an entry made of displacement moves only (None otherwise)."""
+        if m["type"] == "disp":
+            return m["labels"]
+        if m["type"] == "mul":
+            return C11._disp_labels(m["item"])
+        if m["type"] == "sum":
+            labs = [C11._disp_labels(x) for x in m["items"]]
+            return labs[0] if labs and all(x is not None and x == labs[0] for x in labs) else None
+        return None
 
     def budget(self, tier):
         return {"runs": 6000, "wall_s": 170} if tier == "quick" else {"runs": 600000, "wall_s": 1500}
